@@ -235,7 +235,7 @@ def program_stream(ctx: Ctx, rng: random.Random, n: int):
 				continue
 			except Exception:  # noqa: BLE001
 				pass
-		src, _ = c08gen.generate_nest(random.Random(rng.getrandbits(48)), 1 + i % 3)
+		src, _ = c08gen.generate_nest(random.Random(rng.getrandbits(48)), 1 + i % 2 if not ctx.thorough else 1 + i % 3)
 		yield f'nest#{i}', src, 'nest'
 
 
@@ -267,8 +267,8 @@ def search_rename(ctx: Ctx) -> SearchResult:
 				res.findings.append(f)
 
 	# 2. generated programs × adversarial renamings
-	n_prog = ctx.scale(70, 900)
-	per_prog = ctx.scale(4, 8)
+	n_prog = ctx.scale(36, 700)
+	per_prog = ctx.scale(3, 6)
 	for origin, src, tag in program_stream(ctx, rng, n_prog):
 		try:
 			domain = c08gen.renaming_domain(src, reserved)
@@ -312,3 +312,654 @@ def search_rename(ctx: Ctx) -> SearchResult:
 		'functions, closures, flow-scoped locals with sibling re-declaration, comprehensions) + gen_prog; renamings injective, into names that are not '
 		'keyword/builtin/tranp-reserved (c08gen.Reserved), same underscore class, not occurring in P; domain excludes names the emitter can produce itself and data-string words')
 	return res
+
+
+# ---------------------------------------------------------------------------------------------
+# correspondence: driver family `scope`
+
+
+NAME_POOL = ['ab', 'abc', 'abcd', 'a', 'b', 'ab_', 'ab__c', 'a_b', '__ab', '_ab', 'x', 'xs', 'x2', 'self', 'selfo', 'cls', 'init', 'do__init__', 'Abc', 'Ab',
+	'if@1', 'if@10', 'if@107', 'for@1', 'for@10', 'for@107', 'if_clause@11', 'else@12', 'while@2', 'func_call@3', 'Empty', 'int', 'list', 'object',
+	'quite_a_long_identifier_that_goes_on_and_on_for_a_while_x', 'quite_a_long_identifier_that_goes_on_and_on_for_a_while_xy', 'v', 'vv', 'vvv']
+MOD_POOL = ['m', 'mm', 'm.n', 'pkg.mod', 'pkg.mod2', 'lib.core', 'lib.ext', '__main__']
+
+
+def hl(xs: list[str]) -> str:
+	return ','.join(hx(x) for x in xs) if xs else '~'
+
+
+def both(real: str) -> str:
+	return f'S={real} A={real}'
+
+
+def show_key(k: str | None) -> str:
+	return 'none' if k is None else f'ok {hx(k)}'
+
+
+def stream_dsn(ctx: Ctx) -> Stream:
+	"""ModuleDSN / DSN primitives and the two plain-string helpers, structured and malformed inputs."""
+	from rogw.tranp.dsn.module import ModuleDSN
+	rng = ctx.sub_rng('dsn')
+	cases = []
+
+	def some_dsn(malformed: bool) -> str:
+		mod = rng.choice(MOD_POOL)
+		elems = [rng.choice(NAME_POOL) for _ in range(rng.randint(0, 4))]
+		s = mod + ('#' + '.'.join(elems) if elems or rng.random() < 0.1 else '')
+		if malformed:
+			k = rng.random()
+			if k < 0.2:
+				s = s.replace('.', '..', 1)
+			elif k < 0.4:
+				s = s + rng.choice(['#', '.', '#x', '.#', '@3'])
+			elif k < 0.55:
+				s = rng.choice(['#', '.', '']) + s
+			elif k < 0.7:
+				s = s.replace('#', '##', 1)
+			elif k < 0.8:
+				s = ''
+			elif k < 0.9:
+				s = s.replace('#', '.', 1)
+		return s
+
+	def wrap(f) -> str:
+		try:
+			return f()
+		except Exception as e:  # noqa: BLE001
+			return exc_enum(e)
+
+	for i in range(ctx.scale(300, 4000)):
+		malformed = i % 3 == 2
+		ops: list[str] = []
+		real: list[str] = []
+		dsn = some_dsn(malformed)
+		elems = [rng.choice(NAME_POOL + ['', 'a.b', 'p.q.r'] + (['#', 'x#y', '.'] if malformed else [])) for _ in range(rng.randint(0, 3))]
+		ops.append(f'dsn.fulljoined\t{hx(dsn)}\t{hl(elems)}')
+		real.append(wrap(lambda: hx(ModuleDSN.full_joined(dsn, *elems))))
+		ops.append(f'dsn.localjoined\t{hl(elems)}')
+		real.append(wrap(lambda: hx(ModuleDSN.local_joined(*elems))))
+		ops.append(f'dsn.parsed\t{hx(dsn)}')
+		real.append(wrap(lambda: '|'.join(hx(p) for p in ModuleDSN.parsed(dsn))))
+		ops.append(f'dsn.expand\t{hx(dsn)}')
+		real.append(wrap(lambda: hl(ModuleDSN.expand_elements(dsn))))
+		loc = '.'.join(elems)
+		ops.append(f'dsn.expand\t{hx(loc)}')
+		real.append(wrap(lambda: hl(ModuleDSN.expand_elements(loc))))
+		ops.append(f'dsn.expanded\t{hx(dsn)}')
+		real.append(wrap(lambda: (lambda me: f'{hx(me[0])}|{hl(me[1])}')(ModuleDSN.expanded(dsn))))
+		# str.replace(p, '') and `in`, on entry-path-like strings
+		tags = ['file_input', 'class_def', 'class_def[1]', 'class_def_raw', 'block', 'function_def', 'function_def[2]', 'function_def_raw', 'assign', 'var', 'aa', 'a']
+		s = '.'.join(rng.choice(tags) for _ in range(rng.randint(0, 9)))
+		p = '.'.join(rng.choice(tags) for _ in range(rng.randint(1, 3))) + rng.choice(['', '.', '.class_def_raw.block.'])
+		if rng.random() < 0.3 and s:
+			a = rng.randrange(len(s))
+			p = s[a:a + rng.randint(1, 12)]
+		if rng.random() < 0.1:
+			p = rng.choice(['aa', 'a', 'aaa', 'a.a'])
+			s = rng.choice(['aaaa', 'aaaaa', 'a.a.a.a', 'aaa.aaa', ''])
+		ops.append(f'str.removeall\t{hx(p)}\t{hx(s)}')
+		real.append(hx(s.replace(p, '')))
+		ops.append(f'str.infix\t{hx(p)}\t{hx(s)}')
+		real.append('true' if p in s else 'false')
+		cases.append(({'malformed': malformed}, ops, real))
+	st = common.correspond('dsn', cases, 'scope', classify=lambda d: 'malformed' if d['malformed'] else 'structured')
+	st.note = 'ModuleDSN.full_joined/local_joined/parsed/expand_elements/expanded on structured and malformed strings (doubled/leading/trailing delimiters, two #, empty); str.replace(p, "") and `in` on entry-path-like strings with overlapping occurrences'
+	return st
+
+
+def ancestors_of(node: Any) -> list[Any]:
+	import rogw.tranp.syntax.node.definition as defs
+	out = []
+	cur = node.parent
+	while not isinstance(cur, defs.Entrypoint):
+		out.append(cur)
+		cur = cur.parent
+	return out
+
+
+def names_op(node: Any) -> tuple[str, str]:
+	from rogw.tranp.syntax.node.behavior import IDomain, INamespace, IScope
+	chain = [f"{int(isinstance(a, IScope))}:{int(isinstance(a, INamespace))}:{hx(a.domain_name)}:{hx(a.classification)}" for a in ancestors_of(node)]
+	op = f"names\t{hx(node.module_path)}\t{','.join(chain) if chain else '~'}\t{int(isinstance(node, IDomain))}\t{hx(node.domain_name)}\t{hx(node.classification)}\t{node.id}"
+	try:
+		real = both(f'{hx(node.scope)}|{hx(node.namespace)}|{hx(node.fullyname)}')
+	except Exception as e:  # noqa: BLE001
+		real = exc_enum(e)
+	return op, real
+
+
+class RecDB:
+	"""Symbol table proxy that records which key a returned reflection was read from."""
+
+	def __init__(self, db: Any) -> None:
+		self.db = db
+		self.log: list[tuple[str, Any]] = []
+
+	def __contains__(self, key: str) -> bool:
+		return key in self.db
+
+	def __getitem__(self, key: str) -> Any:
+		v = self.db[key]
+		self.log.append((key, v))
+		return v
+
+	def key_of(self, raw: Any) -> str | None:
+		if raw is None:
+			return None
+		for k, v in reversed(self.log):
+			if v is raw:
+				return k
+		return '<not-from-db>'
+
+
+def table_ops(db: Any) -> list[str]:
+	import rogw.tranp.syntax.node.definition as defs
+	ops = ['tbl.clear']
+	for key in db.keys():
+		raw = db[key]
+		types = raw.types
+		is_class = types.is_a(defs.Class)
+		inh = [i.type_name.tokens for i in types.inherits] if isinstance(types, defs.Class) else []
+		imp = hx(raw.node.domain_name) if isinstance(raw.node, defs.ImportAsName) else '~'
+		ops.append(f"tbl.add\t{hx(key)}\t{int(is_class)}\t{int(raw.decl.is_a(*defs.ClassOrTypeTs))}\t{hx(types.full_path)}\t{hx(types.module_path)}\t{imp}\t{hl(inh)}")
+	return ops
+
+
+def stream_real(ctx: Ctx) -> Stream:
+	"""Generated nests through the real pipeline: Node.scope/namespace/fullyname and SymbolFinder.find_by_symbolic vs both layers."""
+	import rogw.tranp.syntax.node.definition as defs
+	from rogw.tranp.semantics.finder import SymbolFinder
+	from rogw.tranp.syntax.node.behavior import IDomain
+	from rogw.tranp.syntax.node.node import Node
+	rng = ctx.sub_rng('scope-real')
+	real = Real(ctx)
+	finder = real.app.resolve(SymbolFinder)
+	libs = list(finder._SymbolFinder__library_paths)
+	cases = []
+	n_nodes = 0
+	for i in range(ctx.scale(10, 120)):
+		src, _ = c08gen.generate_nest(random.Random(rng.getrandbits(48)), 1 + i % 3)
+		if i % 3 == 1:
+			# the same program under an adversarial renaming: both spellings must be modelled alike
+			try:
+				reserved = real.reserved()
+				dom = c08gen.renaming_domain(src, reserved)
+				src = c08gen.rename_source(src, c08gen.make_renaming(rng, dom, set(c08gen.IDENT_RE.findall(src)), reserved, len(dom)))
+			except Exception:  # noqa: BLE001
+				pass
+		try:
+			module = real.load(src)
+			db = real.db()
+			nodes = module.entrypoint.procedural()
+		except Exception:  # noqa: BLE001
+			continue
+		ops = [f'libs\t{hl(libs)}', *table_ops(db)]
+		outs = ['ok'] * len(ops)
+		plain = [n for n in nodes if not isinstance(n, defs.Entrypoint)]
+		sample = plain if len(plain) <= ctx.scale(120, 400) else rng.sample(plain, ctx.scale(120, 400))
+		for node in sample:
+			generic = type(node).fullyname is Node.fullyname and type(node).scope is Node.scope and type(node).namespace is Node.namespace
+			if generic:
+				op, out = names_op(node)
+				ops.append(op)
+				outs.append(out)
+			elif isinstance(node, defs.DeclThisVar):
+				ops.append(f"thisvar\t{hx(node.class_types.fullyname)}\t{hx(node.domain_name)}")
+				outs.append(both(hx(node.fullyname)))
+			if isinstance(node, (defs.Declable, defs.Relay, defs.Var, defs.Type, defs.Literal, defs.ClassDef)):
+				n_nodes += 1
+				props = [''] if rng.random() < 0.8 else [rng.choice(['', 'ab', 'abc', '__init__', 'append', 'x.y'])]
+				for prop in props:
+					rec = RecDB(db)
+					try:
+						raw = finder.find_by_symbolic(rec, node, prop)  # type: ignore[arg-type]
+						out = both(show_key(rec.key_of(raw)))
+					except Exception as e:  # noqa: BLE001
+						out = both(exc_enum(e))
+					ops.append(f"find\t{hx(node.scope)}\t{int(node.is_a(defs.Var))}\t{int(isinstance(node, defs.Type))}\t{hx(node.full_path)}\t{hx(node.domain_name)}\t{hx(prop)}")
+					outs.append(out)
+					ops.append(f"scopes\t{hx(node.scope)}\t{int(node.is_a(defs.Var))}\t{int(isinstance(node, defs.Type))}\t{hx(node.full_path)}")
+					try:
+						scopes = finder._SymbolFinder__make_scopes(db, node)
+						outs.append(both(hl([s.dsn for s in scopes])))
+					except Exception as e:  # noqa: BLE001
+						outs.append(both(exc_enum(e)))
+		for word in ['object', 'int', 'str', 'None', 'Unknown', 'nosuchword']:
+			rec = RecDB(db)
+			try:
+				raw = finder._SymbolFinder__find_raw(rec, [__import__('rogw.tranp.dsn.module', fromlist=['ModuleDSN']).ModuleDSN(m) for m in libs], word)
+				out = both(show_key(rec.key_of(raw)))
+			except Exception as e:  # noqa: BLE001
+				out = both(exc_enum(e))
+			ops.append(f'std\t{hx(word)}')
+			outs.append(out)
+		cases.append(({'kind': 'real', 'nodes': len(sample), 'table': len(db)}, ops, outs))
+	st = common.correspond('scope-real', cases, 'scope', classify=lambda d: f"nodes<{10 ** len(str(d['nodes']))}")
+	st.note = f'generated nests (every third one adversarially renamed) loaded by the real pipeline; real symbol table sent entry by entry; names/thisvar ops for sampled nodes, find + scopes ops for {n_nodes} symbolic nodes (with and without prop_name), by_standard words'
+	return st
+
+
+# -- synthetic worlds: fake reflections / nodes around the REAL SymbolFinder and VarsCollector ------
+
+
+def _fakes() -> dict[str, Any]:
+	"""Subclasses of the real node classes that bypass construction and expose exactly the attributes the finder reads."""
+	import rogw.tranp.syntax.node.definition as defs
+
+	def mk(base: type, name: str) -> type:
+		return type(name, (base,), {
+			'__init__': lambda self, **kw: self.__dict__.update(kw),
+			'full_path': property(lambda self: self.__dict__['fp']),
+			'module_path': property(lambda self: self.__dict__['mp']),
+			'inherits': property(lambda self: self.__dict__.get('inh', [])),
+			'domain_name': property(lambda self: self.__dict__.get('dn', '')),
+			'scope': property(lambda self: self.__dict__.get('sc', '')),
+			'__hash__': lambda self: id(self),
+			'__eq__': lambda self, other: self is other,
+		})
+
+	return {
+		'Class': mk(defs.Class, 'FClass'), 'Function': mk(defs.Function, 'FFunction'), 'Import': mk(defs.ImportAsName, 'FImport'),
+		'Var': mk(defs.Var, 'FVar'), 'Type': mk(defs.VarOfType, 'FType'), 'Relay': mk(defs.Relay, 'FRelay'), 'Decl': mk(defs.DeclLocalVar, 'FDecl'),
+	}
+
+
+def gen_world(rng: random.Random, malformed: bool) -> tuple[dict[str, Any], list[str], list[str], list[str]]:
+	"""A symbol table of fakes: modules, classes (with inheritance by base-class NAME, sometimes dotted), functions, locals in
+	flow scopes, imports; names share prefixes and suffixes. Returns (db, table ops, library paths, entry paths)."""
+	fk = _fakes()
+	mods = rng.sample(MOD_POOL, rng.randint(2, 4))
+	libs = rng.sample(mods, rng.randint(0, 2)) if rng.random() < 0.9 else []
+	names = rng.sample(NAME_POOL, rng.randint(4, 10))
+	db: dict[str, Any] = {}
+	paths: list[str] = ['file_input']
+	counter = [0]
+
+	def entry_path(parent: str, tag: str) -> str:
+		counter[0] += 1
+		p = f'{parent}.{tag}' if rng.random() < 0.5 else f'{parent}.{tag}[{counter[0] % 7}]'
+		paths.append(p)
+		return p
+
+	def add(key: str, kind: str, fp: str, mp: str, inh: list[str] | None = None, imp: str | None = None, ct: bool | None = None) -> None:
+		types = fk['Class'](fp=fp, mp=mp, inh=[pytypes.SimpleNamespace(type_name=pytypes.SimpleNamespace(tokens=t)) for t in (inh or [])]) if kind == 'class' else fk['Function'](fp=fp, mp=mp)
+		is_ct = (kind == 'class') if ct is None else ct
+		decl = pytypes.SimpleNamespace(is_a=lambda *c, _v=is_ct: _v)
+		node = fk['Import'](dn=imp) if imp is not None else fk['Decl'](dn='x')
+		db[key] = pytypes.SimpleNamespace(types=types, decl=decl, node=node)
+
+	class_keys: list[tuple[str, str, str]] = []  # (mod, local path, entry path)
+	for mod in mods:
+		for _ in range(rng.randint(1, 4)):
+			n = rng.choice(names)
+			if rng.random() < 0.55:
+				fp = entry_path('file_input', 'class_def')
+				same_mod = [loc for m2, loc, _ in class_keys if m2 == mod]
+				bases = [rng.choice(same_mod) if same_mod and rng.random() < 0.7 else rng.choice(names + ['ab.abc', 'Abc.Ab']) for _ in range(rng.randint(0, 2))]
+				add(f'{mod}#{n}', 'class', fp, mod, bases)
+				class_keys.append((mod, n, fp))
+				for _ in range(rng.randint(0, 4)):
+					m = rng.choice(names)
+					mfp = entry_path(f'{fp}.class_def_raw.block', rng.choice(['function_def', 'anno_assign', 'class_def']))
+					if mfp.split('.')[-1].startswith('class_def'):
+						add(f'{mod}#{n}.{m}', 'class', mfp, mod, [rng.choice(names)] if rng.random() < 0.5 else [])
+						class_keys.append((mod, f'{n}.{m}', mfp))
+					else:
+						add(f'{mod}#{n}.{m}', 'func', mfp, rng.choice(mods), ct=rng.random() < 0.2)
+					for _ in range(rng.randint(0, 2)):
+						add(f'{mod}#{n}.{m}.{rng.choice(names)}', 'func', entry_path(f'{mfp}.function_def_raw.block', 'assign'), rng.choice(mods), ct=rng.random() < 0.2)
+			elif rng.random() < 0.5:
+				target_mod, target_name = rng.choice(mods), rng.choice(names)
+				tops = [(m2, loc) for m2, loc, _ in class_keys if '.' not in loc]
+				if tops and rng.random() < 0.7:
+					target_mod, target_name = rng.choice(tops)
+				add(f'{mod}#{n}', 'func', 'file_input.import_stmt', target_mod, imp=target_name, ct=rng.random() < 0.5)
+			else:
+				fp = entry_path('file_input', 'function_def')
+				add(f'{mod}#{n}', 'func', fp, mod, ct=rng.random() < 0.2)
+				for _ in range(rng.randint(0, 3)):
+					add(f'{mod}#{n}.{rng.choice(names)}', 'func', entry_path(f'{fp}.function_def_raw.block', 'assign'), mod, ct=rng.random() < 0.2)
+		if rng.random() < 0.3:
+			add(mod, 'func', 'file_input', mod)
+	if malformed:
+		for _ in range(rng.randint(1, 3)):
+			add(rng.choice(['m#a#b', 'm##a', '#a', 'm#.a', 'm#a..b', 'm.', 'm#a.', '']), 'func', 'file_input', rng.choice(mods))
+	import rogw.tranp.syntax.node.definition as defs
+	ops = ['tbl.clear', f'libs\t{hl(libs)}']
+	for key, raw in db.items():
+		is_class = raw.types.is_a(defs.Class)
+		inh = [i.type_name.tokens for i in raw.types.inherits] if is_class else []
+		imp = hx(raw.node.domain_name) if isinstance(raw.node, defs.ImportAsName) else '~'
+		ops.append(f"tbl.add\t{hx(key)}\t{int(is_class)}\t{int(raw.decl.is_a())}\t{hx(raw.types.full_path)}\t{hx(raw.types.module_path)}\t{imp}\t{hl(inh)}")
+	return db, ops, libs, paths
+
+
+def stream_synth(ctx: Ctx) -> Stream:
+	"""The REAL SymbolFinder on synthetic tables (imports, inheritance walk, library fall-back, class-scope visibility)."""
+	import rogw.tranp.syntax.node.definition as defs
+	from rogw.tranp.module.types import LibraryPaths, ModulePath
+	from rogw.tranp.semantics.finder import SymbolFinder
+	rng = ctx.sub_rng('scope-synth')
+	fk = _fakes()
+	cases = []
+	hist: Counter[str] = Counter()
+	for i in range(ctx.scale(150, 2500)):
+		malformed = i % 5 == 4
+		db, ops, libs, paths = gen_world(rng, malformed)
+		finder = SymbolFinder(LibraryPaths([ModulePath(m, language='py') for m in libs]))
+		outs = ['ok'] * len(ops)
+		keys = list(db.keys())
+		for _ in range(rng.randint(8, 20)):
+			base = rng.choice(keys) if keys else 'm'
+			k = rng.random()
+			scope = base
+			if k < 0.45:
+				scope = base + ('.' if '#' in base else '#') + '.'.join(rng.choice(NAME_POOL) for _ in range(rng.randint(1, 3)))
+			elif k < 0.55:
+				scope = base.split('#')[0]
+			kind = rng.choice(['Var', 'Var', 'Type', 'Relay'])
+			fp = rng.choice(paths)
+			if rng.random() < 0.6:
+				# a path below one of the classes: visible / hidden by function_def_raw.block / class_def_raw.block
+				cls_paths = [raw.types.full_path for raw in db.values() if raw.types.is_a(defs.Class)]
+				if cls_paths:
+					fp = rng.choice(cls_paths) + rng.choice(['.class_def_raw.block.anno_assign.var', '.class_def_raw.block.function_def.function_def_raw.block.assign.var',
+						'.class_def_raw.block.class_def.class_def_raw.block.assign.var', '.class_def_raw.name', 'x.class_def_raw.block.assign.var', '[1].class_def_raw.block.var'])
+			# names that exist in the table (also as dotted member paths, to reach imports / inheritance / libraries), else any name
+			locals_ = [k.split('#', 1)[1] for k in keys if '#' in k and k.split('#', 1)[1]]
+			k2 = rng.random()
+			if k2 < 0.35 and locals_:
+				dn = rng.choice(locals_).split('.')[-1]
+			elif k2 < 0.6 and locals_:
+				dn = rng.choice(locals_)
+				if rng.random() < 0.5:
+					dn = '.'.join([dn.split('.')[0], *[rng.choice(locals_).split('.')[-1] for _ in range(rng.randint(1, 2))]])
+			elif k2 < 0.75 and locals_:
+				# through an import or a library class into a member that only a base class has
+				heads = [k for k in keys if '#' in k and '.' not in k.split('#', 1)[1] and k.split('#', 1)[1]]
+				members = [k.split('.')[-1] for k in keys if '#' in k and '.' in k.split('#', 1)[1]]
+				dn = rng.choice(heads).split('#', 1)[1] if heads else rng.choice(NAME_POOL)
+				if members:
+					dn = '.'.join([dn, *[rng.choice(members) for _ in range(rng.randint(1, 2))]])
+			elif k2 < 0.9:
+				dn = rng.choice(NAME_POOL)
+			else:
+				dn = rng.choice(['', 'ab.abc', 'a.b.ab', 'Abc.x'])
+			prop = '' if rng.random() < 0.7 else (rng.choice(locals_).split('.')[-1] if locals_ and rng.random() < 0.7 else rng.choice(NAME_POOL + ['a.b']))
+			bad = malformed and (scope.count('#') != 1 and '#' in scope or '..' in scope or scope.endswith('.') or scope.startswith('#') or '#.' in scope)
+			node = fk[kind](sc=scope, dn=dn, fp=fp)
+			pre = 's!\t' if malformed else ''
+			rec = RecDB(db)
+			try:
+				raw = finder.find_by_symbolic(rec, node, prop)  # type: ignore[arg-type]
+				out = show_key(rec.key_of(raw))
+				if raw is None:
+					hist['none'] += 1
+				else:
+					fk_ = rec.key_of(raw) or ''
+					name = '.'.join(x for x in [dn, prop] if x)
+					if fk_.split('#')[0] != scope.split('#')[0]:
+						hist['found:other-module(import/library)'] += 1
+					elif not fk_.endswith(name):
+						hist['found:via-inheritance'] += 1
+					else:
+						hist['found:in-scope-walk'] += 1
+			except Exception as e:  # noqa: BLE001
+				out = exc_enum(e)
+				hist[out] += 1
+			ops.append(f"{pre}find\t{hx(scope)}\t{int(kind == 'Var')}\t{int(kind == 'Type')}\t{hx(fp)}\t{hx(dn)}\t{hx(prop)}")
+			outs.append(f'S={out}' if malformed else both(out))
+			try:
+				scopes = hl([s.dsn for s in finder._SymbolFinder__make_scopes(db, node)])
+			except Exception as e:  # noqa: BLE001
+				scopes = exc_enum(e)
+			ops.append(f"{pre}scopes\t{hx(scope)}\t{int(kind == 'Var')}\t{int(kind == 'Type')}\t{hx(fp)}")
+			outs.append(f'S={scopes}' if malformed else both(scopes))
+			_ = bad
+		for word in rng.sample(NAME_POOL, 3):
+			from rogw.tranp.dsn.module import ModuleDSN
+			rec = RecDB(db)
+			try:
+				raw = finder._SymbolFinder__find_raw(rec, [ModuleDSN(m) for m in libs], word)
+				out = show_key(rec.key_of(raw))
+			except Exception as e:  # noqa: BLE001
+				out = exc_enum(e)
+			ops.append(('s!\t' if malformed else '') + f'std\t{hx(word)}')
+			outs.append(f'S={out}' if malformed else both(out))
+		cases.append(({'malformed': malformed, 'table': len(db)}, ops, outs))
+	st = common.correspond('scope-synth', cases, 'scope', classify=lambda d: 'malformed-keys(string layer only)' if d['malformed'] else 'wellformed(both layers)')
+	st.histogram.update({f'result:{k}': v for k, v in hist.items()})
+	st.note = 'real SymbolFinder over fake reflections: prefix-sharing names, dotted base-class names, imports across modules, empty library list, empty and dotted domain names, prop names; every fifth world has malformed keys and is compared with the string layer only'
+	return st
+
+
+def hazardous(decl: list[Any], add: list[Any]) -> bool:
+	"""True when a bare `startswith` on the scopes is not a comparison of element lists for some pair."""
+	allv = [*decl, *add]
+	for d in allv:
+		for a in allv:
+			if a.scope.startswith(d.scope) and a.scope != d.scope and a.scope[len(d.scope)] not in '.#':
+				return True
+			if d.scope.count('#') > 1 or '..' in d.scope or d.scope.endswith(('.', '#')) or d.fullyname.count('#') > 1:
+				return True
+	return False
+
+
+def var_tok(v: Any) -> str:
+	return f'{hx(v.fullyname)}:{hx(v.domain_name)}:{hx(v.scope)}'
+
+
+def stream_merge(ctx: Ctx) -> Stream:
+	"""The REAL VarsCollector._merged on fake declarations, and _collect_impl on the functions of generated nests."""
+	import rogw.tranp.syntax.node.definition as defs
+	from rogw.tranp.syntax.node.definition.statement_compound import VarsCollector
+	rng = ctx.sub_rng('merge')
+	cases = []
+	flow = ['if@1', 'if@10', 'if@107', 'for@1', 'for@10', 'for@107', 'if_clause@11', 'if_clause@110', 'else@12', 'while@2', 'while@20', 'try@3', 'with@30']
+	for i in range(ctx.scale(250, 4000)):
+		fn_scope = rng.choice(['m#f', 'm#ab', 'm#abc', 'm', 'pkg.mod#Abc.f', 'pkg.mod2#Abc.f'])
+		vars_ = []
+		for _ in range(rng.randint(2, 9)):
+			sc = fn_scope
+			for _ in range(rng.randint(0, 3)):
+				sc = sc + ('.' if '#' in sc else '#') + rng.choice(flow)
+			if rng.random() < 0.1:
+				sc = rng.choice(['m#f', 'm#ff', 'm#ab', 'm#abc', 'mm#f'])
+			dn = rng.choice(['x', 'xs', 'x', 'ab', 'abc'])
+			vars_.append(pytypes.SimpleNamespace(fullyname=sc + ('.' if '#' in sc else '#') + dn, domain_name=dn, scope=sc))
+		cut = rng.randint(0, len(vars_))
+		decl = list({v.fullyname: v for v in vars_[:cut]}.values())
+		add = list({v.fullyname: v for v in vars_[cut:]}.values())
+		haz = hazardous(decl, add)
+		try:
+			got = VarsCollector._merged({v.fullyname: v for v in decl}, {v.fullyname: v for v in add})
+			out = hl([v.fullyname for v in got.values()])
+		except Exception as e:  # noqa: BLE001
+			out = exc_enum(e)
+		op = ('s!\t' if haz else '') + f"merge\t{','.join(var_tok(v) for v in decl) or '~'}\t{','.join(var_tok(v) for v in add) or '~'}"
+		cases.append(({'kind': 'merged', 'hazard': haz}, [op], [f'S={out}' if haz else both(out)]))
+
+	# _collect_impl on real function / module blocks
+	real = Real(ctx)
+
+	def stmt_tokens(node: Any, allow: type) -> list[str]:
+		own: list[list[Any]] = []
+		if isinstance(node, (defs.AnnoAssign, defs.MoveAssign, defs.For)):
+			own.append([s for s in node.symbols if isinstance(s, allow)])
+		elif isinstance(node, defs.Try):
+			own.extend([s for s in c.symbols if isinstance(s, allow)] for c in node.catches)
+		elif isinstance(node, defs.With):
+			own.extend([s for s in e.symbols if isinstance(s, allow)] for e in node.entries)
+		blocks: list[list[Any]] = []
+		if isinstance(node, (defs.If, defs.Try)):
+			blocks = [list(b.statements) for b in node.having_blocks]
+		elif isinstance(node, (defs.While, defs.For, defs.With)):
+			blocks = [list(node.block.statements)]
+		toks = ['(']
+		for syms in own:
+			toks += ['[', *[var_tok(s) for s in syms], ']']
+		for b in blocks:
+			toks.append('{')
+			for s in b:
+				toks += stmt_tokens(s, allow)
+			toks.append('}')
+		toks.append(')')
+		return toks
+
+	for i in range(ctx.scale(8, 80)):
+		src, _ = c08gen.generate_nest(random.Random(rng.getrandbits(48)), 2 + i % 2)
+		try:
+			module = real.load(src)
+		except Exception:  # noqa: BLE001
+			continue
+		holders = [n for n in module.entrypoint.procedural() if isinstance(n, defs.Function)] + [module.entrypoint]
+		for h in holders:
+			block = h if isinstance(h, defs.Entrypoint) else h.block
+			try:
+				got = VarsCollector._collect_impl(block, defs.DeclLocalVar)
+				out = hl([v.fullyname for v in got.values()])
+				toks: list[str] = []
+				vs = []
+				for s in block.statements:
+					toks += stmt_tokens(s, defs.DeclLocalVar)
+				haz = False
+			except Exception as e:  # noqa: BLE001
+				continue
+			# id-prefix collisions between flow scopes make the bare startswith differ from the element-wise test: string layer only
+			scopes = sorted({t.split(':')[2] for t in toks if ':' in t})
+			for a in scopes:
+				for b in scopes:
+					sa, sb = common.unhx(a), common.unhx(b)
+					if sb.startswith(sa) and sb != sa and sb[len(sa)] not in '.#':
+						haz = True
+			_ = vs
+			cases.append(({'kind': 'collect', 'hazard': haz}, [('s!\t' if haz else '') + 'collect\t' + ' '.join(toks)], [f'S={out}' if haz else both(out)]))
+	st = common.correspond('merge', cases, 'scope', classify=lambda d: f"{d['kind']}:{'prefix-hazard(string layer only)' if d['hazard'] else 'delimiter-safe(both layers)'}")
+	st.note = 'VarsCollector._merged on fake declarations whose scopes share prefixes (for@10 / for@107, ab / abc) — inputs where the bare startswith is not an element-wise prefix test are compared with the string layer only (they are the witnesses of C08.merged_refines_counterexample); _collect_impl on the function and module blocks of generated nests'
+	return st
+
+
+# ---------------------------------------------------------------------------------------------
+# search: the `_counterexample` of Props/C08.lean replayed on the real code
+
+
+def two_loops(pad: int, names: tuple[str, str, str] = ('f', 'i', 'i')) -> str:
+	fn, v1, v2 = names
+	lines = [f'def {fn}() -> None:', f'\tfor {v1} in range(1):', f'\t\tprint({v1})']
+	lines += ['\tprint(0)'] * pad
+	lines += [f'\tfor {v2} in range(2):', f'\t\tprint({v2})']
+	return '\n'.join(lines) + '\n'
+
+
+def search_sibling_scopes(ctx: Ctx) -> SearchResult:
+	"""Binding structure, not spelling: two SIBLING loops of one function that use the same loop variable must be handled the
+	same way whatever number of statements stands between them. The oracle is the law itself on the real code: the outcome
+	class (transpiles / which error) and — up to the padding lines — the emitted text do not depend on the padding.
+	`merged_refines_counterexample` predicts a failure exactly when the id of the second loop starts with the digits of the id
+	of the first (`for@10` / `for@107`)."""
+	import rogw.tranp.syntax.node.definition as defs
+	from rogw.tranp.implements.cpp.transpiler.py2cpp import Py2Cpp
+	rng = ctx.sub_rng('sibling')
+	res = SearchResult('sibling flow scopes: outcome independent of the number of statements between two loops over the same variable (real code only)')
+	real = Real(ctx)
+	hist: Counter[str] = Counter()
+	name_sets = [('f', 'i', 'i'), ('abc', 'ab', 'ab'), ('walk', 'idx2', 'idx2')]
+	found = False
+	for names in name_sets[:ctx.scale(2, 3)]:
+		outcomes: dict[int, tuple[str, str]] = {}
+		ids: dict[int, list[int]] = {}
+		for pad in range(0, ctx.scale(24, 120)):
+			src = two_loops(pad, names)
+			res.cases += 1
+			try:
+				module = real.load(src)
+				ids[pad] = [n.id for n in module.entrypoint.procedural() if isinstance(n, defs.For)]
+				out = real.app.resolve(Py2Cpp).transpile(module.entrypoint)
+				body = '\n'.join(ln for ln in out.splitlines() if 'printf(0)' not in ln)
+				outcomes[pad] = ('ok', body)
+			except Exception as e:  # noqa: BLE001
+				outcomes[pad] = (exc_enum(e), '')
+			hist[outcomes[pad][0]] += 1
+		ref = outcomes[0]
+		for pad, oc in outcomes.items():
+			if oc != ref and not found:
+				found = True
+				a, b = (ids.get(pad) or [0, 0])[:2] if len(ids.get(pad) or []) >= 2 else (0, 0)
+				prefix = str(b).startswith(str(a))
+				res.findings.append(Finding(
+					key='merge-scope-id-prefix' if prefix else 'sibling-scope-padding',
+					what=(f'two sibling loops over `{names[1]}` in `{names[0]}`: with {pad} statements between them the result is {oc[0]} instead of {ref[0]} '
+						f'(flow scopes for@{a} and for@{b}: VarsCollector._merged uses a bare startswith on the scope strings)'),
+					replay={'origin': 'sibling-scopes', 'source': src if (src := two_loops(pad, names)) else '', 'pad': pad, 'for_ids': [a, b], 'outcome': oc[0], 'reference': ref[0]}))
+		if len(res.samples) < 1:
+			res.samples.append({'names': names, 'pads': len(outcomes), 'outcomes': dict(Counter(o[0] for o in outcomes.values()))})
+	_ = rng
+	res.distinct = res.cases
+	res.histogram = dict(hist)
+	return res
+
+
+# ---------------------------------------------------------------------------------------------
+
+
+STATEMENTS = {
+	'equivariant_resolve': 'for every injective renaming r: find_by_symbolic(r·db, r·node, r·name) = r·find_by_symbolic(db, node, name) (scope walk + class-scope rule + import + library + inheritance walk)',
+	'equivariant_scopes': '__make_scopes / __allow_scope commute with every injective renaming',
+	'equivariant_recursive': '__find_raw_recursive (member / inheritance walk) commutes with every injective renaming',
+	'equivariant_names': 'Node.scope / namespace / fullyname commute with every renaming',
+	'equivariant_merging': 'VarsCollector._merged and _collect_impl commute with every injective renaming',
+	'equivariant_reserved': 'a lookup of a word the code supplies itself (by_standard, get_object) commutes with an injective renaming that fixes reserved words',
+	'string_refines_dsn': 'for well-formed names: ModuleDSN.expanded inverts the key encoding (injective), full_joined / expand_elements compute the encodings of append / identity',
+	'string_refines_scopes': '__make_scopes on the joined strings = encoding of the abstract scopes, incl. safety of the string-LENGTH test of __allow_scope in its context',
+	'string_refines_resolve': 'find_by_symbolic on the joined strings = encoding of the abstract lookup',
+	'string_refines_standard': 'by_standard on the joined strings = encoding of the abstract lookup',
+	'string_refines_names': 'Node.scope / namespace / fullyname / DeclThisVar.fullyname on strings = encodings of the abstract ones',
+	'merged_refines_counterexample': 'NOT (merging on strings = encoding of merging on element lists): witnesses for@10 / for@107 (reachable) and ab / abc — the bare startswith of VarsCollector._merged',
+	'merged_refines_partial': 'the bare startswith never misses a declaration in the same or an enclosing scope (element-wise prefix implies string prefix)',
+	'rUnderscore_injective / DVar.map_key_iff / related_map': 'auxiliary: a concrete injective renaming for the non-vacuity examples; the two tests of _merged are preserved by injective renamings',
+}
+
+
+def run(ctx: Ctx) -> int:
+	proof = common.prove(ctx, PROP, leanchecker=ctx.thorough)
+	with ctx.timed('correspondence'):
+		streams = [stream_dsn(ctx), stream_real(ctx), stream_synth(ctx), stream_merge(ctx)]
+	with ctx.timed('search'):
+		searches = [search_rename(ctx), search_sibling_scopes(ctx)]
+	return common.finish(ctx, proof, streams, searches,
+		statements=STATEMENTS,
+		partial={
+			'proved': 'name resolution, scope construction, fullyname/scope/namespace and declaration merging are equivariant under injective renamings (abstract layer); '
+				'the string layer refines the abstract layer for identifier names for every function except VarsCollector._merged, whose bare startswith is refuted (counterexample) with its sound half proved',
+			'correspondence_only': 'that the two model layers are what the Python does (streams dsn, scope-real, scope-synth, merge)',
+			'search_only': 'the whole-pipeline law transpile(r(P)) == r(transpile(P)) incl. templates and the regex/string post-processing of py2cpp.py:1679-1836, symbol keys, inferred type strings',
+			'not_modelled': 'DSN.relativefy (bare split(starts)) as used by ClassDomainNaming.__namespace without alias handler (debug path only); alias_dsn / i18n lookups',
+		},
+		assumptions=[
+			'names are non-empty strings without "." and "#" (every Python identifier; tranp scope words like if@115); module paths are non-empty without "#"',
+			'a renaming is injective, maps user identifiers to names that are not keyword / builtin / tranp-reserved (c08gen.Reserved: self, cls, super, _, dunder names, every name of the loaded library modules, same leading-underscore class) and not present in the program',
+			'entry paths (Node.full_path) contain grammar tags and indices only',
+		],
+		trusted=['the harness-side extraction of (ancestor chain, symbol-table attributes) from real nodes and reflections', 'CPython ast/tokenize for the source-side renaming'])
+
+
+def replay(ctx: Ctx, path: str) -> int:
+	with open(path, encoding='utf-8') as f:
+		rec = json.load(f)
+	print(json.dumps(rec, indent=1)[:3000])
+	inp = rec.get('input') or {}
+	if rec.get('kind') == 'failing-input' and 'renaming' in inp:
+		real = Real(ctx)
+		base = real.observe(inp['source'])
+		r = check_pair(real, inp['source'], inp['renaming'], base)
+		print('replay: law', 'VIOLATED: ' + str(r) if isinstance(r, tuple) else f'holds ({r})')
+		ctx.cleanup()
+		return 1 if isinstance(r, tuple) else 0
+	if rec.get('kind') == 'failing-input' and inp.get('origin') == 'sibling-scopes':
+		real = Real(ctx)
+		a, b = real.observe(two_loops(0), False), real.observe(inp['source'], False)
+		print('replay: pad 0 ->', a['error'] or 'ok', '; recorded padding ->', b['error'] or 'ok')
+		ctx.cleanup()
+		return 1 if (a['error'] or 'ok') != (b['error'] or 'ok') else 0
+	ctx2 = Ctx(PROP, rec.get('tier', 'quick'), int(rec.get('seed', 0)))
+	return run(ctx2)
